@@ -34,6 +34,7 @@ ASSUMPTIONS = [
     "periods that would place the disposal after year 9999 (10^9 days, JP/IE sys.maxsize) are exercised as 'never long-term' with finite elapsed times",
     "the generic plugin is constructed in-process under a patched environment (CURRENCY_CODE, LONG_TERM_CAPITAL_GAINS)",
 ]
+RULE += e2e.RULE_SUFFIX
 
 DAY = model.US_PER_DAY
 SEC = 1_000_000
